@@ -43,9 +43,17 @@ def explore(ctx):
         names = [g["name"] for g in desc["glyphs"]]
         desc["kerning"] = {(names[0], names[1]): -30}
         desc["features"] = "feature liga { sub %s %s by %s; } liga;" % (names[0], names[1], names[2])
+        # glyph naming is orthogonal to the CFF options: half of the fonts are renamed through public.postscriptNames,
+        # with maps that swap two names, chain (a->b, b->c) or are plain
+        prod = i % 2 == 1
+        if prod:
+            kind = ["swap", "chain", "plain"][(i // 2) % 3]
+            a, b, c = names[0], names[1], names[2]
+            desc["lib"] = {"public.postscriptNames": {"swap": {a: b, b: a}, "chain": {a: b, b: c, c: "glyph.c"},
+                                                      "plain": {a: "uni0041.x", b: "glyph00002"}}[kind]}
         base = None
         for opt, subr, ver in GRID:
-            kw = {"optimizeCFF": opt, "cffVersion": ver, "useProductionNames": False}
+            kw = {"optimizeCFF": opt, "cffVersion": ver, "useProductionNames": prod}
             if subr:
                 kw["subroutinizer"] = subr
             case = {"font": jsonable(desc), "options": kw}
@@ -63,10 +71,14 @@ def explore(ctx):
             cases.append(G.tup(G.z(opt), sub, G.z(ver), G.z(0 if raised else 1)))
             meta.append(dict(case, raised=raised))
             ctx.klass("opt%d/%s/cff%d%s" % (opt, subr, ver, ":raises" if raised else ""))
+            if prod and (opt, subr, ver) == GRID[0]:
+                ctx.klass("renamed:" + kind)
             if raised:
                 continue
             gs = tt.getGlyphSet()
-            obs = {"draw": {n: geom.drawn_segments(gs[n]) for n in names},
+            order = tt.getGlyphOrder()
+            obs = {"draw": {k: geom.drawn_segments(gs[order[k]]) for k in range(len(order))},
+                   "order": order,
                    "hmtx": {n: tt["hmtx"][n] for n in tt.getGlyphOrder()},
                    "layout": {t: tt.reader[t] for t in ("GSUB", "GPOS", "GDEF") if t in tt.reader},
                    "cff_tag": "CFF2" if "CFF2" in tt else "CFF "}
@@ -76,10 +88,13 @@ def explore(ctx):
                 base = obs
                 ctx.nontriv(("font", i, ctx.scale))
                 continue
-            for n in names:
+            if obs["order"] != base["order"]:
+                ctx.spec_failure(case, "glyph order %r differs from the baseline build's %r" % (obs["order"], base["order"]))
+                continue
+            for n in range(len(order)):
                 if obs["draw"][n] != base["draw"][n]:
-                    ctx.spec_failure(dict(case, glyph=n), "glyph %r draws %r, baseline (optimizeCFF=0, CFF1) draws %r" % (
-                        n, obs["draw"][n][:6], base["draw"][n][:6]))
+                    ctx.spec_failure(dict(case, glyph=order[n]), "glyph #%d %r draws %r, baseline (optimizeCFF=0, CFF1) draws %r" % (
+                        n, order[n], obs["draw"][n][:6], base["draw"][n][:6]))
                     break
             if obs["hmtx"] != base["hmtx"]:
                 ctx.spec_failure(case, "hmtx differs from the baseline build")
